@@ -1,6 +1,7 @@
 mod decode;
 mod exec;
 mod gen_c07;
+mod gen_fuzz;
 mod gen_instr;
 mod gen_mem;
 mod gen_prog;
@@ -17,9 +18,9 @@ fn main() {
             let mut out: Vec<String> = Vec::new();
             match prop.as_str() {
                 "C01" => gen_instr::gen(&[gen_instr::Class::Data, gen_instr::Class::Lea, gen_instr::Class::Os], tier, seed, 6, 40, &mut out),
-                "C02" => gen_instr::gen(&[gen_instr::Class::Data, gen_instr::Class::Lea, gen_instr::Class::Stack, gen_instr::Class::Branch], tier, seed ^ 0x202, 5, 40, &mut out),
-                "C03" => gen_instr::gen(&[gen_instr::Class::Branch], tier, seed, 30, 300, &mut out),
-                "C04" => gen_instr::gen(&[gen_instr::Class::Stack], tier, seed, 40, 400, &mut out),
+                "C02" => gen_instr::gen(&[gen_instr::Class::Data, gen_instr::Class::Lea, gen_instr::Class::Stack, gen_instr::Class::CallRet, gen_instr::Class::Branch], tier, seed ^ 0x202, 5, 40, &mut out),
+                "C03" => gen_instr::gen(&[gen_instr::Class::Branch, gen_instr::Class::CallRet], tier, seed, 30, 300, &mut out),
+                "C04" => gen_instr::gen(&[gen_instr::Class::Stack, gen_instr::Class::CallRet], tier, seed, 40, 400, &mut out),
                 "C05" => gen_instr::gen_filtered(&[gen_instr::Class::Lea, gen_instr::Class::Data], tier, seed ^ 0x505, 6, 40, true, &mut out),
                 "C06" => gen_instr::gen(&[gen_instr::Class::Data], tier, seed ^ 0x606, 6, 40, &mut out),
                 "C07" => gen_c07::gen(tier, seed, &mut out),
@@ -32,6 +33,7 @@ fn main() {
                 "C14" => gen_prog::gen_c14(tier, seed, &mut out),
                 "C17" => gen_prog::gen_c17(tier, seed, &mut out),
                 "C18" => gen_prog::gen_c18(tier, seed, &mut out),
+                "C19" => gen_fuzz::gen_c19(tier, seed, &mut out),
                 _ => {
                     eprintln!("unknown property {}", prop);
                     std::process::exit(2);
